@@ -27,7 +27,7 @@ ANCHORS = [
 ]
 URIS = gen.NS_URIS + ["http://www.w3.org/ns/prov#", "http://ex.org/sub", "urn:x:y:"]
 PFX = gen.PREFIXES + ["prov", "xsd", "dn_2", "ex_1_1", "http", "urn"]
-LOCALS = ["a", "b", "x.y", "sub/z", "été", "n1", "a-b", "sub#k"]
+LOCALS = ["a", "b", "x.y", "sub/z", "été", "n1", "a-b", "sub#k", "tail ", " lead", "in ner", "a\u00a0"]
 
 
 def plan(tier, seed):
